@@ -146,6 +146,10 @@ func (cs *caseState) mingle() {
 	}
 }
 
+// foreignMW is the position base of the middlewares configured on the OTHER ScopeMiddleware
+// instance of the case (they must never run for a request through the instance under test).
+const foreignMW = 100
+
 // onMW is the body of configured middleware number pos.
 func (st *reqState) onMW(pos int, sc godi.Scope) error {
 	st.cs.mingle()
